@@ -1493,12 +1493,14 @@ class SpaceManager(SharedSpaceOperations):
 
     def new_ref(self, space, name, value, refmode):
 
-        other = self._find_name_in_subs(space, name)
-        if other is not None:
-            if not isinstance(other, ReferenceImpl):
-                raise ValueError("Cannot create reference '%s'" % name)
-            elif other not in self.model.global_refs.values():
-                raise ValueError("Cannot create reference '%s'" % name)
+        # The name must not be in use for a cells or a space in space or
+        # in any of its sub spaces. References defined in sub spaces
+        # keep overriding the new one.
+        for subspace in self._get_subs(space, skip_self=False):
+            if name in subspace.namespace:
+                if not isinstance(
+                        subspace._namespace.fresh[name], ReferenceImpl):
+                    raise ValueError("Cannot create reference '%s'" % name)
 
         self._check_subs_relrefs(space, name, value, refmode)
         result = space.on_create_ref(name, value, is_derived=False,
